@@ -118,6 +118,21 @@ type Conn struct {
 	StallPings bool
 	// OnPublish lets a harness inject a failure.
 	OnPublish func(subj, reply string, data []byte) error
+	// Async: a published message travels to the server and back before it reaches a subscription's
+	// pending list (what the real client and server do); the set of receiving subscriptions is fixed
+	// in protocol order at publish time, the hand-over to the pending lists is a step of a separate
+	// "network" thread, Flush and the drainer wait for everything published before them. With Async
+	// off (the default) the round trip takes no time, which is one of the real behaviours.
+	Async     bool
+	inflight  []*flight
+	nPub      int // messages handed to the network
+	nArrived  int // messages that came back and were handed to their subscriptions
+	netThread bool
+}
+
+type flight struct {
+	m       *Msg
+	targets []*Subscription
 }
 
 type Subscription struct {
@@ -268,15 +283,24 @@ func (s *Subscription) Unsubscribe() error {
 func (s *Subscription) Drain() error {
 	vsched.Yield()
 	s.obj.Read()
-	if s.closed {
-		return ErrBadSubscription
-	}
 	if s.conn.status == CLOSED {
 		return ErrConnectionClosed
 	}
+	if s.closed {
+		// nats.go: Conn.unsubscribe finds no such sid any more ("already unsubscribed") and returns nil
+		return nil
+	}
 	s.obj.Write()
 	s.draining = true
+	mark := s.conn.nPub
 	vsched.GoNamed("nats-drainer:"+s.Subject, false, func() {
+		if s.conn.Async {
+			// checkDrained flushes first: whatever was on its way has arrived
+			vsched.WaitUntil(s.conn.obj, func() bool { return s.conn.nArrived >= mark })
+			if vsched.Killed() {
+				return
+			}
+		}
 		vsched.WaitUntil(s.obj, func() bool { return s.pMsgs == 0 || s.closed })
 		if vsched.Killed() {
 			return
@@ -308,6 +332,17 @@ func tokenMatch(pattern, subject string) bool {
 }
 
 func (c *Conn) route(m *Msg) int {
+	if c.Async && vsched.Active() {
+		t := c.targets(m)
+		c.obj.Write()
+		c.inflight = append(c.inflight, &flight{m: m, targets: t})
+		c.nPub++
+		if !c.netThread {
+			c.netThread = true
+			vsched.GoNamed("nats-network", false, c.network)
+		}
+		return len(t)
+	}
 	n := 0
 	groups := map[string][]*Subscription{}
 	var order []string
@@ -331,6 +366,78 @@ func (c *Conn) route(m *Msg) int {
 		n++
 	}
 	return n
+}
+
+// routeStatus delivers a no-responders status the way the server does (client.subForReply): to ONE
+// plain subscription of the requesting connection that matches the reply subject; which one is not
+// specified (the order of a sublist match), so every candidate is an alternative.
+func (c *Conn) routeStatus(st *Msg) {
+	var cand []*Subscription
+	for _, s := range c.subs {
+		if !s.closed && !s.draining && s.Queue == "" && tokenMatch(s.Subject, st.Subject) {
+			cand = append(cand, s)
+		}
+	}
+	if len(cand) == 0 {
+		return
+	}
+	t := cand[vsched.Choose(len(cand))]
+	if c.Async && vsched.Active() {
+		c.obj.Write()
+		c.inflight = append(c.inflight, &flight{m: st, targets: []*Subscription{t}})
+		c.nPub++
+		if !c.netThread {
+			c.netThread = true
+			vsched.GoNamed("nats-network", false, c.network)
+		}
+		return
+	}
+	c.enqueue(t, st)
+}
+
+// targets is route's decision without the hand-over: the subscriptions the server sends m to.
+func (c *Conn) targets(m *Msg) []*Subscription {
+	var out []*Subscription
+	groups := map[string][]*Subscription{}
+	var order []string
+	for _, s := range c.subs {
+		if s.closed || s.draining || !tokenMatch(s.Subject, m.Subject) {
+			continue
+		}
+		if s.Queue == "" {
+			out = append(out, s)
+			continue
+		}
+		if _, ok := groups[s.Queue]; !ok {
+			order = append(order, s.Queue)
+		}
+		groups[s.Queue] = append(groups[s.Queue], s)
+	}
+	for _, q := range order {
+		g := groups[q]
+		out = append(out, g[vsched.Choose(len(g))])
+	}
+	return out
+}
+
+// network hands messages that have made the round trip to their subscriptions, in order; a
+// subscription that was unsubscribed meanwhile drops them, a draining one still takes them.
+func (c *Conn) network() {
+	for {
+		vsched.WaitUntil(c.obj, func() bool { return len(c.inflight) > 0 })
+		if vsched.Killed() {
+			return
+		}
+		f := c.inflight[0]
+		c.inflight = c.inflight[1:]
+		c.obj.Write()
+		for _, s := range f.targets {
+			if !s.closed {
+				c.enqueue(s, f.m)
+			}
+		}
+		c.nArrived++
+	}
 }
 
 func (c *Conn) enqueue(s *Subscription, m *Msg) {
@@ -365,7 +472,7 @@ func (c *Conn) publish(subj, reply string, data []byte) error {
 	if n := c.route(m); n == 0 && reply != "" {
 		c.seq++
 		st := &Msg{Subject: reply, Header: Header{"Status": {"503"}}, Seq: c.seq}
-		c.route(st)
+		c.routeStatus(st)
 	}
 	return nil
 }
@@ -397,6 +504,11 @@ func (c *Conn) flush(d time.Duration) error {
 		// round trip ends with the flush timeout (10 s for a plain Flush)
 		vsched.Sleep(int64(d))
 		return ErrTimeout
+	}
+	if c.Async && vsched.Active() {
+		// the PONG follows everything published before the PING
+		mark := c.nPub
+		vsched.WaitUntil(c.obj, func() bool { return c.nArrived >= mark })
 	}
 	return nil
 }
@@ -456,6 +568,13 @@ func (c *Conn) PendingTotal() int {
 	n := 0
 	for _, s := range c.subs {
 		n += s.pMsgs
+	}
+	for _, f := range c.inflight {
+		for _, s := range f.targets {
+			if !s.closed {
+				n++
+			}
+		}
 	}
 	return n
 }
